@@ -115,7 +115,7 @@ PROPS["C13"] = rt_prop(
 
 PROPS["C14"] = rt_prop(
     "runtime monitoring: algebraic law checker (reflexive/symmetric/antisymmetric/transitive, cmp==Equal<=>eq, eq=>hash eq, NaN greatest, set/map class counts) "
-    "over all triples of colliding value pools",
+    "over all triples of colliding value pools; Miri on the same law enumeration incl. the educe-derived unsafe comparison code of generated types (thorough)",
     "Held on all triples of every pool for DoubleKey, every DoubleOps implementation and generator-style Educe wrappers; generated types of random definitions "
     "are covered by the lab half when built.",
     "36-element pools built to collide (NaN payloads, +-0, infinities, prefix-related lists/maps) for 17 types, all triples; distinct = (type, pair class)",
@@ -256,15 +256,25 @@ PROPS["C14"]["assumptions"] = [a for a in PROPS["C14"]["assumptions"]] + ["gener
 PROPS["C17"]["stages"] = [rt_stage, labchecks.errors_stage]
 
 
+MIRI_PLAN = {
+    # property: (processes, scale of the random sub-monitors, what is interpreted)
+    "C01": (12, "0.001", "the unsafe to_string path and the dependency unsafe reached through the wrappers"),
+    # C14's fixed sub-monitors (all triples over the colliding pools, incl. the generated sink types whose educe-derived
+    # Ord/Hash code contains unsafe discriminant reads) run in full whatever the scale: one process, ~30 min
+    "C14": (1, "0.00001", "DoubleKey / DoubleOps and the educe-derived comparison code (unsafe discriminant reads) of the generated sink types"),
+}
+
+
 def miri_stage(prop, tier, seed, replay):
-    """C01 thorough only: the same monitor interpreted by Miri (UB / invalid UTF-8 in the unsafe to_string path and the dependency unsafe reached through the
-    wrappers). ~0.6 s per oracle evaluation, so a few trees per process, 12 processes."""
+    """Thorough only: the same monitor interpreted by Miri (UB, invalid UTF-8, uninitialised reads). ~0.6 s per oracle evaluation of C01,
+    so a few trees per process, 12 processes; C14 runs its fixed law enumeration once."""
     import json, os, subprocess, time
     from concurrent.futures import ThreadPoolExecutor
     from vcheck import HARNESS, WORK, ENV, empty_report, merge, Inconclusive
     rep = empty_report(prop)
     if tier != "thorough" or replay:
         return rep
+    procs, scale, what = MIRI_PLAN[prop]
     env = dict(ENV)
     env.update({"MIRIFLAGS": "-Zmiri-disable-isolation", "CARGO_TARGET_DIR": os.path.join(WORK, "target-miri")})
     t = time.time()
@@ -275,14 +285,17 @@ def miri_stage(prop, tier, seed, replay):
         return rep
     log("[miri] built/warmed in %.0fs" % (time.time() - t))
     def one(k):
-        out = os.path.join(WORK, "out", "miri-%d.json" % k)
+        out = os.path.join(WORK, "out", "miri-%s-%d.json" % (prop, k))
         if os.path.exists(out):
             os.remove(out)
-        r = subprocess.run(["cargo", "+nightly", "miri", "run", "--offline", "-q", "-p", "rt", "--", "C01", "--threads", "1", "--scale", "0.001", "--seed", str(seed * 1000 + k), "--out", out],
-                           cwd=HARNESS, env=env, stdout=subprocess.PIPE, stderr=subprocess.STDOUT, text=True, timeout=5400)
+        try:
+            r = subprocess.run(["cargo", "+nightly", "miri", "run", "--offline", "-q", "-p", "rt", "--", prop, "--threads", "1", "--scale", scale, "--seed", str(seed * 1000 + k), "--out", out],
+                               cwd=HARNESS, env=env, stdout=subprocess.PIPE, stderr=subprocess.STDOUT, text=True, timeout=3 * 3600)
+        except subprocess.TimeoutExpired:
+            raise Inconclusive("watchdog: the Miri process of %s exceeded 3 h" % prop)
         return k, r, out
     with ThreadPoolExecutor(max_workers=12) as ex:
-        for k, r, out in ex.map(one, range(12)):
+        for k, r, out in ex.map(one, range(procs)):
             if "Undefined Behavior" in r.stdout or (r.returncode != 0 and "error:" in r.stdout):
                 tail = r.stdout[r.stdout.find("error"):][:1200]
                 rep["violations"].append({"sig": "miri:undefined-behaviour-or-abort", "sub": "miri", "case_seed": seed * 1000 + k, "detail": {"miri_output": tail}})
@@ -293,11 +306,12 @@ def miri_stage(prop, tier, seed, replay):
                 part["samples"] = []
                 merge(rep, part)
                 rep["matrix"]["miri/evaluations"] = rep["matrix"].get("miri/evaluations", 0) + part["evaluations"]
-    rep["notes"].append("miri: %d oracle evaluations of the C01 monitor were also executed under cargo +nightly miri (12 processes)" % rep["matrix"].get("miri/evaluations", 0))
+    rep["notes"].append("miri: %d oracle evaluations of the %s monitor were also executed under cargo +nightly miri (%d process(es)): %s" % (rep["matrix"].get("miri/evaluations", 0), prop, procs, what))
     return rep
 
 
 PROPS["C01"]["stages"] = [rt_stage, miri_stage]
+PROPS["C14"]["stages"] = [rt_stage, labchecks.laws_stage, miri_stage]
 
 PROPS["C04"]["stages"] = [rt_stage, labchecks.services_stage]
 PROPS["C04"]["level_text"] = PROPS["C04"]["level_text"].replace("random definitions are covered by the lab half when built.",
